@@ -60,6 +60,8 @@ int main() {
     for (int i = 0; i < 12; i++) printf("#define PREC_%s %d\n", pn[i], static_cast<int>(pv[i])); }
   SZ("ChaiScript_Basic", ChaiScript_Basic) OFF("CB_mutex", ChaiScript_Basic, m_mutex) OFF("CB_use_mutex", ChaiScript_Basic, m_use_mutex) OFF("CB_used_files", ChaiScript_Basic, m_used_files) OFF("CB_use_paths", ChaiScript_Basic, m_use_paths)
   OFF("FNF_filename", exception::file_not_found_error, filename) SZ("FNF", exception::file_not_found_error)
+  { using B = eval::Binary_Operator_AST_Node<eval::Noop_Tracer>; using F = eval::Fold_Right_Binary_Operator_AST_Node<eval::Noop_Tracer>; using Pn = eval::Prefix_AST_Node<eval::Noop_Tracer>;
+    SZ("BinOp_Node", B) OFF("BinOp_oper", B, m_oper) SZ("FoldR_Node", F) OFF("FoldR_oper", F, m_oper) OFF("FoldR_rhs", F, m_rhs) SZ("Prefix_Node", Pn) OFF("Prefix_oper", Pn, m_oper) }
   SZ("File_Position", File_Position) SZ("Parse_Location", Parse_Location)
   SZ("std_string", std::string) SZ("std_vector", std::vector<int>) SZ("std_shared_ptr", std::shared_ptr<int>)
   static_assert(sizeof(std::string) == 32 && sizeof(std::vector<int>) == 24 && sizeof(std::shared_ptr<int>) == 16, "libstdc++ layouts the C models rely on");
